@@ -264,6 +264,9 @@ impl MarlinPST13 {
         res is Ok ==> res->Ok_0.0@.len() == polynomials@.len() && res->Ok_0.1@.len() == polynomials@.len(),   // name=pst13.commit.one_commitment_and_state_per_polynomial props=C01
         res is Ok ==> (forall|i: int| 0 <= i < polynomials@.len() ==> pst_commit_one(ck, (#[trigger] polynomials@[i]), &res->Ok_0.0@[i], &res->Ok_0.1@[i])),   // name=pst13.commit.term_indexed_linear_map_plus_blinding props=C08,C07,C01
         (res is Ok && rng is None) ==> (forall|i: int| 0 <= i < polynomials@.len() ==> (#[trigger] polynomials@[i]).hiding_bound is None),   // name=pst13.commit.hiding_without_rng_never_succeeds props=C07,C17
+        // in-domain requests are answered: an error means some polynomial exceeds the supported degree or asks for a hiding bound of zero / beyond the key
+        res is Err ==> (exists|i: int| 0 <= i < polynomials@.len() && !((#[trigger] polynomials@[i]).polynomial.deg() <= ck.supported_degree
+            && (polynomials@[i].hiding_bound is Some ==> (polynomials@[i].hiding_bound->Some_0 != 0 && polynomials@[i].hiding_bound->Some_0 <= ck.supported_degree)))),   // name=pst13.commit.only_out_of_domain_requests_are_refused props=C17,C01
 //@body
 //@rw * /&mut crate::optional_rng::OptionalRng\(rng\)/ => &mut optional_rng_wrap(rng)
 //@rw * /label\.to_string\(\)/ => string_to_string(label)
